@@ -210,6 +210,10 @@ class Ctx:
             self.features.append(f)
 
     def tol(self):
+        # torch cells: pgmpy builds every table through torch.Tensor(values) (float32) before casting to the
+        # configured float64, so stored inputs carry ~6e-8 relative rounding; that is precision, not semantics.
+        if self.backend == "torch":
+            return dict(atol=2e-6, rtol=2e-6)
         return dict(atol=1e-9, rtol=1e-9) if self.backend != "torch32" else dict(atol=1e-4, rtol=1e-4)
 
 
